@@ -23,6 +23,10 @@
 (*   * four further enumerator machines that walk the argument domains of  *)
 (*     DATE ("date"), EOMONTH/EDATE ("shift"), HOUR/MINUTE/SECOND          *)
 (*     ("time") and YEARFRAC ("yf") and whose laws TLC checks;             *)
+(*   * a machine ("frac") that walks arguments with a fraction -- a        *)
+(*     date-time day + fraction of the day as start of EOMONTH/EDATE,      *)
+(*     quarters of months, days and years as arguments of DATE, EOMONTH,   *)
+(*     EDATE -- of which the functions use the whole part;                 *)
 (*   * Export, an always-true "invariant" that prints one JSON test        *)
 (*     vector per state (per month start for the calendar machine).        *)
 (*                                                                         *)
@@ -36,7 +40,7 @@
 EXTENDS Integers, Sequences, FiniteSets, TLC, Json
 
 CONSTANTS
-  Modes,        \* machines to run: subset of {"cal", "date", "shift", "time", "yf"}
+  Modes,        \* machines to run: subset of {"cal", "date", "shift", "time", "yf", "frac"}
   LastSerial,   \* where the calendar machine stops (2958465 for the real claim)
   DayStepsUntil,\* the calendar machine advances day by day below this serial and
                 \* by whole months from the next month start on (thorough tier:
@@ -53,7 +57,14 @@ CONSTANTS
   ShiftStarts,  \* start serials of EOMONTH/EDATE
   ShiftLo, ShiftHi,   \* month shifts walked for every start
   TimeDeltas,   \* sub-second perturbations, in milliseconds, |delta| < 500
-  YfDays        \* serials from which YEARFRAC pairs are formed
+  YfDays,       \* serials from which YEARFRAC pairs are formed
+  FracDen,      \* arguments with a fraction are numerators over FracDen (4: quarters)
+  FracYears,    \* year arguments of DATE (numerators, non-negative)
+  FracMonthPins, FracDayPins,   \* month / day numerators held while the other
+                \* argument walks over FracDen * ArgLo .. FracDen * ArgHi
+  FracStarts,   \* start days of EOMONTH/EDATE, taken at every fraction of the day
+  FracShiftLo, FracShiftHi      \* month shifts (whole numbers) between which the
+                \* months argument walks in steps of 1 / FracDen
 
 VARIABLES
   mode,
@@ -61,14 +72,19 @@ VARIABLES
   ay, am, ad,            \* date:  the three arguments of DATE
   sn, sk,                \* shift: start serial and number of months
   ts, th, tm, tsec,      \* time:  second of the day and its clock reading
-  fa, fb, fbasis, fswap  \* yf:    the two dates, the basis, "arguments swapped"
+  fa, fb, fbasis, fswap, \* yf:    the two dates, the basis, "arguments swapped"
+  fkind, fwalk, f1, f2, f3   \* frac: "DATE": year, month, day numerators;
+                         \*       "SHIFT": start day, months numerator, numerator of
+                         \*       the fraction of the start day;  fwalk: "m" / "d" =
+                         \*       the numerator that walks is f2 / f3
 
 calVars   == <<n, y, m, d, wd>>
 dateVars  == <<ay, am, ad>>
 shiftVars == <<sn, sk>>
 timeVars  == <<ts, th, tm, tsec>>
 yfVars    == <<fa, fb, fbasis, fswap>>
-vars      == <<mode, calVars, dateVars, shiftVars, timeVars, yfVars>>
+fracVars  == <<fkind, fwalk, f1, f2, f3>>
+vars      == <<mode, calVars, dateVars, shiftVars, timeVars, yfVars, fracVars>>
 
 MaxSerial == 2958465        \* 9999-12-31, Excel's last date
 
@@ -241,6 +257,32 @@ EDateFn(s, k) ==
            ELSE {Num(DateSerial(ty, tm2, Min(p[3], MonthLen(ty, tm2))))}
 
 --------------------------------------------------------------------------
+(* Arguments with a fraction.  A cell holds a date-time as day + fraction  *)
+(* of the day, and nothing keeps a month, day or year argument whole.      *)
+(* Excel uses the whole part: the date functions work on the day of a      *)
+(* date-time, "if months is not an integer, it is truncated" (EDATE,       *)
+(* EOMONTH), and DATE does the same with its three arguments.  An argument *)
+(* is kept as a numerator over FracDen.  For a negative argument           *)
+(* truncation (toward zero, what Excel documents) and floor differ; the    *)
+(* property statement does not say which: both are allowed.                *)
+
+TruncOf(num) == IF num >= 0 THEN num \div FracDen ELSE -((-num) \div FracDen)
+IsWhole(num) == (IF num >= 0 THEN num ELSE -num) % FracDen = 0
+Whole(num) ==                  \* the whole numbers num / FracDen may be taken as
+  IF num >= 0 \/ IsWhole(num) THEN {TruncOf(num)}
+  ELSE {TruncOf(num), TruncOf(num) - 1}
+
+DateFracFn(yn, mn, dn) ==
+  UNION {DateFn(yy, mm, dd) : yy \in Whole(yn), mm \in Whole(mn), dd \in Whole(dn)}
+
+\* a date-time: day s >= 0 and q / FracDen of that day, as one numerator
+Moment(s, q) == s * FracDen + q
+DayOfMoment(mt) == mt \div FracDen
+
+EoMonthFracFn(mt, kn) == UNION {EoMonthFn(DayOfMoment(mt), kk) : kk \in Whole(kn)}
+EDateFracFn(mt, kn)   == UNION {EDateFn(DayOfMoment(mt), kk) : kk \in Whole(kn)}
+
+--------------------------------------------------------------------------
 (* HOUR / MINUTE / SECOND read the fraction of the day, rounded to the     *)
 (* nearest second, as a clock.  Time is kept in milliseconds of the day.   *)
 
@@ -282,6 +324,7 @@ IdleDate  == ay = 0 /\ am = 0 /\ ad = 0
 IdleShift == sn = 0 /\ sk = 0
 IdleTime  == ts = 0 /\ th = 0 /\ tm = 0 /\ tsec = 0
 IdleYf    == fa = 0 /\ fb = 0 /\ fbasis = 0 /\ fswap = 0
+IdleFrac  == fkind = "-" /\ fwalk = "-" /\ f1 = 0 /\ f2 = 0 /\ f3 = 0
 
 InitCal ==
   /\ mode = "cal"
@@ -291,7 +334,7 @@ InitCal ==
           /\ wd = 7                          \* Excel calls it a Saturday
      ELSE y = Parts(n)[1] /\ m = Parts(n)[2] /\ d = Parts(n)[3]
           /\ wd = WeekdayOf(n)
-  /\ IdleDate /\ IdleShift /\ IdleTime /\ IdleYf
+  /\ IdleDate /\ IdleShift /\ IdleTime /\ IdleYf /\ IdleFrac
 
 \* quick tier only: once past DayStepsUntil and at a month start whose
 \* month is complete, the machine takes the whole month in one step
@@ -305,49 +348,49 @@ NextDay ==
      ELSE IF m < 12 THEN d' = 1 /\ m' = m + 1 /\ y' = y
      ELSE d' = 1 /\ m' = 1 /\ y' = y + 1
   /\ wd' = (wd % 7) + 1
-  /\ UNCHANGED <<mode, dateVars, shiftVars, timeVars, yfVars>>
+  /\ UNCHANGED <<mode, dateVars, shiftVars, timeVars, yfVars, fracVars>>
 
 NextMonth ==                      \* = MonthLen(y, m) times NextDay
   /\ mode = "cal" /\ MonthJumps
   /\ n' = n + MonthLen(y, m) /\ d' = 1
   /\ IF m < 12 THEN m' = m + 1 /\ y' = y ELSE m' = 1 /\ y' = y + 1
   /\ wd' = ((wd - 1 + MonthLen(y, m)) % 7) + 1
-  /\ UNCHANGED <<mode, dateVars, shiftVars, timeVars, yfVars>>
+  /\ UNCHANGED <<mode, dateVars, shiftVars, timeVars, yfVars, fracVars>>
 
 InitDate ==
   /\ mode = "date"
   /\ ay \in DateYears /\ ad = ArgLo
   /\ am \in (IF SplitChains /\ ay \in 0..9999 THEN ArgLo..ArgHi ELSE {ArgLo})
-  /\ IdleCal /\ IdleShift /\ IdleTime /\ IdleYf
+  /\ IdleCal /\ IdleShift /\ IdleTime /\ IdleYf /\ IdleFrac
 
 NextDayArg ==                     \* DATE(y, m, d) -> DATE(y, m, d+1)
   /\ mode = "date" /\ ad < ArgHi
   /\ ad' = ad + 1 /\ UNCHANGED <<ay, am>>
-  /\ UNCHANGED <<mode, calVars, shiftVars, timeVars, yfVars>>
+  /\ UNCHANGED <<mode, calVars, shiftVars, timeVars, yfVars, fracVars>>
 
 NextMonthArg ==                   \* ... -> DATE(y, m+1, ArgLo)
   /\ mode = "date" /\ ad = ArgHi /\ am < ArgHi
   /\ ay \in 0..9999    \* an illegal year is #NUM! whatever follows: one row
   /\ am' = am + 1 /\ ad' = ArgLo /\ UNCHANGED ay
-  /\ UNCHANGED <<mode, calVars, shiftVars, timeVars, yfVars>>
+  /\ UNCHANGED <<mode, calVars, shiftVars, timeVars, yfVars, fracVars>>
 
 InitShift ==
   /\ mode = "shift"
   /\ sn \in ShiftStarts
   /\ sk \in (IF SplitChains THEN {k \in ShiftLo..ShiftHi : (k - ShiftLo) % 100 = 0}
              ELSE {ShiftLo})
-  /\ IdleCal /\ IdleDate /\ IdleTime /\ IdleYf
+  /\ IdleCal /\ IdleDate /\ IdleTime /\ IdleYf /\ IdleFrac
 
 NextShift ==                      \* one more month
   /\ mode = "shift" /\ sk < ShiftHi
   /\ sk' = sk + 1 /\ UNCHANGED sn
-  /\ UNCHANGED <<mode, calVars, dateVars, timeVars, yfVars>>
+  /\ UNCHANGED <<mode, calVars, dateVars, timeVars, yfVars, fracVars>>
 
 InitTime ==
   /\ mode = "time"
   /\ th \in (IF SplitChains THEN 0..23 ELSE {0})
   /\ ts = 3600 * th /\ tm = 0 /\ tsec = 0
-  /\ IdleCal /\ IdleDate /\ IdleShift /\ IdleYf
+  /\ IdleCal /\ IdleDate /\ IdleShift /\ IdleYf /\ IdleFrac
 
 Tick ==                           \* the clock advances one second
   /\ mode = "time" /\ ts < 86399
@@ -355,32 +398,56 @@ Tick ==                           \* the clock advances one second
   /\ IF tsec < 59 THEN tsec' = tsec + 1 /\ tm' = tm /\ th' = th
      ELSE IF tm < 59 THEN tsec' = 0 /\ tm' = tm + 1 /\ th' = th
      ELSE tsec' = 0 /\ tm' = 0 /\ th' = th + 1
-  /\ UNCHANGED <<mode, calVars, dateVars, shiftVars, yfVars>>
+  /\ UNCHANGED <<mode, calVars, dateVars, shiftVars, yfVars, fracVars>>
 
 InitYf ==
   /\ mode = "yf"
   /\ fa \in YfDays /\ fb \in YfDays /\ fa <= fb
   /\ fbasis = 0 /\ fswap = 0
-  /\ IdleCal /\ IdleDate /\ IdleShift /\ IdleTime
+  /\ IdleCal /\ IdleDate /\ IdleShift /\ IdleTime /\ IdleFrac
 
 SwapDates ==                      \* YEARFRAC(a, b, .) -> YEARFRAC(b, a, .)
   /\ mode = "yf" /\ fswap = 0 /\ fa < fb
   /\ fa' = fb /\ fb' = fa /\ fswap' = 1 /\ UNCHANGED fbasis
-  /\ UNCHANGED <<mode, calVars, dateVars, shiftVars, timeVars>>
+  /\ UNCHANGED <<mode, calVars, dateVars, shiftVars, timeVars, fracVars>>
 
 NextBasis ==
   /\ mode = "yf" /\ fswap = 0 /\ fbasis < 4
   /\ fbasis' = fbasis + 1 /\ UNCHANGED <<fa, fb, fswap>>
-  /\ UNCHANGED <<mode, calVars, dateVars, shiftVars, timeVars>>
+  /\ UNCHANGED <<mode, calVars, dateVars, shiftVars, timeVars, fracVars>>
+
+\* where the walking numerator starts: at lo, with SplitChains at every 10th
+\* whole number as well (the runs merge)
+FracSeeds(lo, hi) ==
+  {FracDen * a : a \in {b \in lo..hi : b = lo \/ (SplitChains /\ (b - lo) % 10 = 0)}}
+
+InitFrac ==
+  /\ mode = "frac"
+  /\ \/ /\ fkind = "DATE" /\ f1 \in FracYears
+        /\ \/ fwalk = "m" /\ f2 \in FracSeeds(ArgLo, ArgHi) /\ f3 \in FracDayPins
+           \/ fwalk = "d" /\ f2 \in FracMonthPins /\ f3 \in FracSeeds(ArgLo, ArgHi)
+     \/ /\ fkind = "SHIFT" /\ f1 \in FracStarts /\ fwalk = "m"
+        /\ f2 \in FracSeeds(FracShiftLo, FracShiftHi) /\ f3 \in 0..(FracDen - 1)
+  /\ IdleCal /\ IdleDate /\ IdleShift /\ IdleTime /\ IdleYf
+
+FracHi == FracDen * (IF fkind = "DATE" THEN ArgHi ELSE FracShiftHi)
+
+NextFrac ==                       \* the walking argument grows by 1 / FracDen
+  /\ mode = "frac"
+  /\ IF fwalk = "m" THEN f2 < FracHi /\ f2' = f2 + 1 /\ f3' = f3
+                    ELSE f3 < FracHi /\ f3' = f3 + 1 /\ f2' = f2
+  /\ UNCHANGED <<fkind, fwalk, f1>>
+  /\ UNCHANGED <<mode, calVars, dateVars, shiftVars, timeVars, yfVars>>
 
 Init == \/ "cal" \in Modes /\ InitCal
         \/ "date" \in Modes /\ InitDate
         \/ "shift" \in Modes /\ InitShift
         \/ "time" \in Modes /\ InitTime
         \/ "yf" \in Modes /\ InitYf
+        \/ "frac" \in Modes /\ InitFrac
 
 Next == NextDay \/ NextMonth \/ NextDayArg \/ NextMonthArg \/ NextShift \/ Tick
-        \/ SwapDates \/ NextBasis
+        \/ SwapDates \/ NextBasis \/ NextFrac
 
 Spec == Init /\ [][Next]_vars
 
@@ -391,6 +458,14 @@ TypeOK ==
   /\ mode \in Modes
   /\ mode = "cal" => /\ n \in 0..LastSerial /\ y \in 1900..9999
                      /\ m \in 1..12 /\ d \in 0..31 /\ wd \in 1..7
+  /\ mode = "frac" => /\ fkind \in {"DATE", "SHIFT"} /\ fwalk \in {"m", "d"}
+                      /\ fkind = "DATE" => /\ f1 \in FracYears
+                                           /\ f2 \in (FracDen * ArgLo)..(FracDen * ArgHi)
+                                           /\ f3 \in (FracDen * ArgLo)..(FracDen * ArgHi)
+                      /\ fkind = "SHIFT" => /\ f1 \in FracStarts /\ f1 \in 0..MaxSerial
+                                            /\ f2 \in (FracDen * FracShiftLo)..(FracDen * FracShiftHi)
+                                            /\ f3 \in 0..(FracDen - 1)
+  /\ mode # "frac" => IdleFrac
 
 \* the closed form agrees with the successor machine at every day
 SerialClosedForm == mode = "cal" => DateSerial(y, m, d) = n
@@ -508,6 +583,36 @@ YearFracSane == (mode = "yf" /\ fbasis \in {2, 3, 4}) =>
   /\ YearFracDef(fa, fb, fbasis)[1] >= 0
   /\ (fbasis # 4 => (fa = fb <=> YearFracDef(fa, fb, fbasis)[1] = 0))
 
+(* Laws -- arguments with a fraction *)
+FracResult == IF fkind = "DATE" THEN DateFracFn(f1, f2, f3)
+              ELSE EDateFracFn(Moment(f1, f3), f2)
+FracLaws == mode = "frac" =>
+  /\ \A num \in (IF fkind = "DATE" THEN {f1, f2, f3} ELSE {f2}) :
+        /\ TruncOf(num) \in Whole(num)
+        \* dropping the fraction moves an argument by less than one
+        /\ \A w \in Whole(num) : w * FracDen - num < FracDen /\ num - w * FracDen < FracDen
+        /\ IsWhole(num) => Whole(num) = {TruncOf(num)} /\ TruncOf(num) * FracDen = num
+        /\ num >= 0 => Whole(num) = {num \div FracDen}
+  /\ fkind = "DATE" =>
+        \* whole arguments: DATE as it is defined above;  arguments that
+        \* are not negative: DATE of the whole parts
+        /\ (\A a \in {f2, f3} : a >= 0 \/ IsWhole(a)) =>
+              DateFracFn(f1, f2, f3) = DateFn(TruncOf(f1), TruncOf(f2), TruncOf(f3))
+        /\ DateFn(TruncOf(f1), TruncOf(f2), TruncOf(f3)) \subseteq DateFracFn(f1, f2, f3)
+  /\ fkind = "SHIFT" =>
+        \* every moment of a day shifts like the day itself
+        /\ DayOfMoment(Moment(f1, f3)) = f1
+        /\ (f2 >= 0 \/ IsWhole(f2)) =>
+              /\ EDateFracFn(Moment(f1, f3), f2) = EDateFn(f1, TruncOf(f2))
+              /\ EoMonthFracFn(Moment(f1, f3), f2) = EoMonthFn(f1, TruncOf(f2))
+        /\ EDateFn(f1, TruncOf(f2)) \subseteq EDateFracFn(Moment(f1, f3), f2)
+        /\ EoMonthFn(f1, TruncOf(f2)) \subseteq EoMonthFracFn(Moment(f1, f3), f2)
+\* a non-negative argument that grows without reaching the next whole
+\* number changes nothing
+FracStep == [][(mode = "frac" /\ f2 >= 0 /\ f3 >= 0
+                /\ TruncOf(f2') = TruncOf(f2) /\ TruncOf(f3') = TruncOf(f3))
+               => FracResult' = FracResult]_vars
+
 --------------------------------------------------------------------------
 (* Test-vector export.  The calendar machine prints one line per month     *)
 (* start (d <= 1) and its last state; the harness expands the days in      *)
@@ -541,4 +646,15 @@ Export ==
     [] mode = "yf" ->
          PrintT(ToJson([t |-> "yf", a |-> fa, b |-> fb, basis |-> fbasis,
                         swapped |-> fswap]))
+    [] mode = "frac" ->
+         IF fkind = "DATE"
+         THEN PrintT(ToJson([t |-> "fdate", den |-> FracDen, y |-> f1, m |-> f2,
+                             d |-> f3, walk |-> fwalk,
+                             allowed |-> DateFracFn(f1, f2, f3)]))
+         ELSE PrintT(ToJson([t |-> "fshift", den |-> FracDen, n |-> f1, q |-> f3,
+                             k |-> f2,
+                             eomonth |-> EoMonthFracFn(Moment(f1, f3), f2),
+                             edate   |-> EDateFracFn(Moment(f1, f3), f2),
+                             year |-> YearFn(f1), month |-> MonthFn(f1),
+                             day |-> DayFn(f1), weekday |-> WeekdayFn(f1)]))
 =============================================================================
